@@ -21,7 +21,27 @@
    sent and not yet passed to Do; [recvd] of them are already in the owner's hands ([SRecv]), the
    others sit in the channel, whose capacity [qcap] bounds them: [SFireSend] is enabled only
    while the channel holds fewer than qcap expiries (Go: the send blocks), so a blocked expiry
-   stays [Firing] - it is never dropped - until a receive frees a slot. *)
+   stays [Firing] - it is never dropped - until a receive frees a slot.
+
+   The OWNER's life cycle ([life]) is part of the state.  For the TimerMgr of a
+   runservice.StandardRunService the owner is the service's loop goroutine:
+     LNew   NewStandardRunService returned; nobody drains the queue (expiries that happen now
+            are sent to the channel and WAIT there)
+     LUp    Start() was called: the loop goroutine exists ([SStart])
+     LDown  Stop() was called - TimerMgr.Stop() ([SStop]: running := false) and
+            close(chanClose) ([SClose]) - by the loop itself (from a task or from a timer
+            callback, [AStop]) or by a foreign goroutine; the loop is still alive and, because
+            reflect.Select picks among the ready channels at random, may still take queued
+            expiries before it takes the close signal
+     LEnd   the loop has left its for-loop ([SLoopEnd], only between two iterations, i.e.
+            while no callback is running): no goroutine drains the queue any more
+   The steps of the draining goroutine are [SRecv], [SBegin], [SDoNext], [SCbStep] and
+   [SLoopEnd] ([loop_step]); receiving and Do are enabled only while it is alive
+   ([drains]).  Stop() itself - whoever calls it - takes nothing out of the queue and runs
+   nothing.  A bare timer.NewTimerMgr() whose owner goroutine drains from the beginning (the
+   bare world of the harness) is the state after [SStart] ([init_up]).  Start() twice,
+   Stop() twice (panics: close of closed channel) and Stop() before Start() are not modelled
+   (the steps are no-ops there) and not driven. *)
 From Cell2V Require Import Common.Tac Common.ListX Common.AList.
 
 (* ---- callback programs ---- *)
@@ -29,7 +49,9 @@ Inductive act :=
 | ACancelSelf                                         (* mgr.Cancel(own id) *)
 | ACancel (k : Z)                                     (* mgr.Cancel(id of the k-th created timer) *)
 | ACreate (d : Z) (rep : bool) (a : Z) (p : list act) (* mgr.AddTimer / mgr.After *)
-| APanic.                                             (* panic("..."): the rest is not executed *)
+| APanic                                              (* panic("..."): the rest is not executed *)
+| AStop.                                              (* the owner's StandardRunService.Stop(), called
+                                                         from inside the callback (bare Mgr: Mgr.Stop()) *)
 Definition prog := list act.
 
 (* where the single "expiry token" of a timer currently is *)
@@ -58,6 +80,10 @@ Definition set_cancel (t : timer) : timer :=
   mkT (t_dur t) (t_period t) (t_args t) (t_prog t) true false
       (match t_tok t with Pending _ => Dead | x => x end).
 
+(* the owner of the manager (the goroutine that drains its queue) *)
+Inductive life := LNew | LUp | LDown | LEnd.
+Definition drains (l : life) : bool := match l with LUp | LDown => true | LNew | LEnd => false end.
+
 Record st := mkS {
   clock : Z;
   running : bool;
@@ -65,22 +91,27 @@ Record st := mkS {
   objs : alist timer;
   queue : list Z;                (* expiries sent and not yet passed to Do: channel + owner's hands *)
   cur : option (Z * prog);       (* callback being executed by the owner, remaining program *)
-  recvd : nat }.                 (* how many entries of [queue] the owner has already received;
+  recvd : nat;                   (* how many entries of [queue] the owner has already received;
                                     the channel holds the other length queue - recvd (<= qcap) *)
+  life_of : life }.              (* the owner's life cycle *)
 
 Definition qcap : Z := 999.
 
-Definition init : st := mkS 0 true 0 [] [] None 0.
+Definition init : st := mkS 0 true 0 [] [] None 0 LNew.
 
 Definition with_objs (s : st) (o : alist timer) : st :=
-  mkS (clock s) (running s) (next s) o (queue s) (cur s) (recvd s).
+  mkS (clock s) (running s) (next s) o (queue s) (cur s) (recvd s) (life_of s).
 Definition with_queue (s : st) (q : list Z) : st :=
-  mkS (clock s) (running s) (next s) (objs s) q (cur s) (recvd s).
+  mkS (clock s) (running s) (next s) (objs s) q (cur s) (recvd s) (life_of s).
 Definition with_cur (s : st) (c : option (Z * prog)) : st :=
-  mkS (clock s) (running s) (next s) (objs s) (queue s) c (recvd s).
+  mkS (clock s) (running s) (next s) (objs s) (queue s) c (recvd s) (life_of s).
+Definition with_life (s : st) (l : life) : st :=
+  mkS (clock s) (running s) (next s) (objs s) (queue s) (cur s) (recvd s) l.
+Definition with_running (s : st) (b : bool) : st :=
+  mkS (clock s) b (next s) (objs s) (queue s) (cur s) (recvd s) (life_of s).
 (* the owner takes k's expiry (out of its hands if it holds any, else straight from the channel) *)
 Definition dequeue (s : st) (k : Z) : st :=
-  mkS (clock s) (running s) (next s) (objs s) (remove_first k (queue s)) (cur s) (pred (recvd s)).
+  mkS (clock s) (running s) (next s) (objs s) (remove_first k (queue s)) (cur s) (pred (recvd s)) (life_of s).
 Definition put (s : st) (k : Z) (t : timer) : st := with_objs s (aset k t (objs s)).
 
 Inductive ev :=
@@ -90,7 +121,10 @@ Inductive ev :=
 | EQueued (k : Z)                              (* expiry of k sent to the queue *)
 | ECb (k clk a : Z)                            (* callback of k invoked at clk with args a *)
 | ERet (k : Z) (panicked : bool)               (* callback of k returned / panicked *)
-| EArm (k clk : Z).                            (* Do re-armed k at clk *)
+| EArm (k clk : Z)                             (* Do re-armed k at clk *)
+| EStart                                       (* the owner's loop goroutine was started *)
+| EClose                                       (* Stop(): the close signal was given to the loop *)
+| ELoopEnd.                                    (* the loop goroutine has ended *)
 
 Inductive step_t :=
 | SCreate (d : Z) (rep : bool) (a : Z) (p : prog)
@@ -102,13 +136,20 @@ Inductive step_t :=
 | SAdvance (dt : Z)
 | SFireCheck (k : Z)
 | SFireSend (k : Z)
-| SRecv.               (* the owner receives one expiry from the channel (frees a slot) *)
+| SRecv                (* the owner receives one expiry from the channel (frees a slot) *)
+| SStart               (* StandardRunService.Start(): go loop() *)
+| SClose               (* the rest of StandardRunService.Stop() after TimerMgr.Stop(): close(chanClose) *)
+| SLoopEnd.            (* the loop takes the close signal and ends *)
+
+(* the steps executed by the goroutine that drains the queue *)
+Definition loop_step (x : step_t) : bool :=
+  match x with SBegin _ | SDoNext | SCbStep | SRecv | SLoopEnd => true | _ => false end.
 
 (* After (rep = false) / AddTimer (rep = true): allocId, doLater, timers.Store *)
 Definition create (s : st) (d : Z) (rep : bool) (a : Z) (p : prog) : st * list ev :=
   let k := next s in
   let t := mkT d (if rep then d else 0) a p false true (Pending (clock s + d)) in
-  (mkS (clock s) (running s) (k + 1) (aset k t (objs s)) (queue s) (cur s) (recvd s),
+  (mkS (clock s) (running s) (k + 1) (aset k t (objs s)) (queue s) (cur s) (recvd s) (life_of s),
    [ECreate k (clock s) d rep a]).
 
 Definition cancel (s : st) (k : Z) : st * list ev :=
@@ -117,12 +158,13 @@ Definition cancel (s : st) (k : Z) : st * list ev :=
    | None => s
    end, [ECancel k]).
 
-(* Do(t) up to and including the call of the callback *)
+(* Do(t) up to and including the call of the callback: only the draining goroutine calls Do *)
 Definition begin_at (s : st) (k : Z) : st * list ev :=
   match cur s with
   | Some _ => (s, [])                      (* the owner is busy inside a callback *)
   | None =>
-      if zmem k (queue s) then
+      if negb (drains (life_of s)) then (s, [])   (* no loop goroutine (yet / any more) *)
+      else if zmem k (queue s) then
         let s1 := dequeue s k in
         match aget k (objs s) with
         | Some t =>
@@ -146,6 +188,17 @@ Definition ret (s : st) (k : Z) (panicked : bool) : st * list ev :=
   | None => (s0, [ERet k panicked])
   end.
 
+(* Mgr.Stop() *)
+Definition mgr_stop (s : st) : st * list ev := (with_running s false, [EStop]).
+
+(* close(chanClose) etc.: the loop is told to end *)
+Definition svc_close (s : st) : st * list ev :=
+  match life_of s with LUp => (with_life s LDown, [EClose]) | _ => (s, []) end.
+
+(* StandardRunService.Stop() = TimerMgr.Stop(); EventCenter.Clear(); RunService.Stop() *)
+Definition svc_stop (s : st) : st * list ev :=
+  let '(s1, e1) := mgr_stop s in let '(s2, e2) := svc_close s1 in (s2, e1 ++ e2).
+
 Definition cb_step (s : st) : st * list ev :=
   match cur s with
   | None => (s, [])
@@ -154,6 +207,7 @@ Definition cb_step (s : st) : st * list ev :=
   | Some (k, ACancelSelf :: r) => cancel (with_cur s (Some (k, r))) k
   | Some (k, ACancel j :: r) => cancel (with_cur s (Some (k, r))) j
   | Some (k, ACreate d rep a p :: r) => create (with_cur s (Some (k, r))) d rep a p
+  | Some (k, AStop :: r) => svc_stop (with_cur s (Some (k, r)))
   end.
 
 (* the function given to AfterFunc, first half: if t.Canceled {return}; if !m.running {return} *)
@@ -186,24 +240,37 @@ Definition fire_send (s : st) (k : Z) : st * list ev :=
   | None => (s, [])
   end.
 
-(* t := <-mgr.GetQueue() without calling Do yet *)
+(* t := <-mgr.GetQueue() without calling Do yet (the draining goroutine only) *)
 Definition recv (s : st) : st * list ev :=
-  if (recvd s <? length (queue s))%nat
-  then (mkS (clock s) (running s) (next s) (objs s) (queue s) (cur s) (S (recvd s)), [])
+  if drains (life_of s) && (recvd s <? length (queue s))%nat
+  then (mkS (clock s) (running s) (next s) (objs s) (queue s) (cur s) (S (recvd s)) (life_of s), [])
   else (s, []).
+
+Definition svc_start (s : st) : st * list ev :=
+  match life_of s with LNew => (with_life s LUp, [EStart]) | _ => (s, []) end.
+
+(* the loop takes the close signal: only between two iterations *)
+Definition loop_end (s : st) : st * list ev :=
+  match life_of s, cur s with
+  | LDown, None => (with_life s LEnd, [ELoopEnd])
+  | _, _ => (s, [])
+  end.
 
 Definition step (s : st) (x : step_t) : st * list ev :=
   match x with
   | SCreate d rep a p => create s d rep a p
   | SCancel k => cancel s k
-  | SStop => (mkS (clock s) false (next s) (objs s) (queue s) (cur s) (recvd s), [EStop])
+  | SStop => mgr_stop s
   | SBegin k => begin_at s k
   | SDoNext => match queue s with k :: _ => begin_at s k | [] => (s, []) end
   | SCbStep => cb_step s
-  | SAdvance dt => (mkS (clock s + Z.max 0 dt) (running s) (next s) (objs s) (queue s) (cur s) (recvd s), [])
+  | SAdvance dt => (mkS (clock s + Z.max 0 dt) (running s) (next s) (objs s) (queue s) (cur s) (recvd s) (life_of s), [])
   | SFireCheck k => fire_check s k
   | SFireSend k => fire_send s k
   | SRecv => recv s
+  | SStart => svc_start s
+  | SClose => svc_close s
+  | SLoopEnd => loop_end s
   end.
 
 Fixpoint run_from (s : st) (xs : list step_t) : st * list ev :=
@@ -224,17 +291,27 @@ Inductive op :=
 | OCreateN (n d : Z) (rep : bool) (a : Z)   (* n timers with an empty callback program *)
 | OStall (ms : Z)    (* the owner does nothing - in particular does not read the queue - for ms *)
 | OCancel (k : Z)
-| OStop             (* settle, then Mgr.Stop() *)
-| OSettle (g : Z)   (* wait until every armed timer has expired and been queued (+ g ms) *)
-| ODo (k : Z)       (* Do the received expiry of timer k, callback to completion *)
-| ODoAll.           (* Do every received expiry, in creation order *)
+| OStop             (* bare world: settle, then Mgr.Stop() *)
+| OSettle (g : Z)   (* bare world: wait until every armed timer has expired and been received (+ g ms) *)
+| ODo (k : Z)       (* bare world: Do the received expiry of timer k, callback to completion *)
+| ODoAll            (* bare world: Do every received expiry, in creation order *)
+(* service world: the manager of a real StandardRunService, the owner is its loop goroutine *)
+| OSvc              (* first op of a service case: the owner does not exist yet ([init]) *)
+| OWait (g : Z)     (* wait until every armed timer has expired and sits in the channel (+ g ms);
+                       nobody receives: there is no loop, or it is busy in a long task *)
+| OStart            (* Start(), then the loop runs until the queue is empty / the loop has ended *)
+| ORun              (* the busy loop is released: runs until the queue is empty / it has ended *)
+| OStopSvc (who : Z). (* wait as OWait 0, then Stop() called by: 0 a foreign goroutine, 1 a task
+                        of the loop itself (the same transition: Stop() touches flags only) *)
 
 Inductive cbrec := CbRec (k n : Z) (args_ok early after_cancel on_owner : bool).
 
 Inductive obs :=
 | BUnit
 | BQueued (l : list Z)      (* timers whose expiry reached the queue during this Settle *)
-| BRan (l : list cbrec).    (* callbacks that ran during this op *)
+| BRan (l : list cbrec)     (* callbacks that ran during this op *)
+| BWait (n : Z) (l : list cbrec). (* number of expiries that reached the channel; callbacks that
+                                     ran although nobody was released to run them (never, in the model) *)
 
 Fixpoint pending (m : alist timer) : list (Z * Z) :=
   match m with
@@ -261,7 +338,48 @@ Definition settle_steps (s : st) (g : Z) : list step_t :=
   SAdvance (fold_right Z.max (clock s) (map snd pk) - clock s)
     :: flat_map (fun k => [SFireCheck k; SFireSend k; SRecv]) (map fst pk) ++ [SAdvance g].
 
-Definition compile (s : st) (o : op) : list step_t :=
+(* the same while nobody receives: the expiries pile up in the channel *)
+Definition wait_steps (s : st) (g : Z) : list step_t :=
+  let pk := pending (objs s) in
+  SAdvance (fold_right Z.max (clock s) (map snd pk) - clock s)
+    :: flat_map (fun k => [SFireCheck k; SFireSend k]) (map fst pk) ++ [SAdvance g].
+
+(* ---- a released loop.  Which expiry the loop takes next - in which order the channel was
+   filled, what arrives while it runs, how many it still takes after Stop() - is the
+   implementation's schedule; the model FOLLOWS the observed one ([l]: the timers whose
+   callbacks ran, in order) and predicts the rest: whether each of them may run at all, with
+   which count, what its program does, what is left. ---- *)
+
+(* the expiry of k reaches the channel now, if k is armed (the clock moves to its deadline) *)
+Definition deliver (s : st) (k : Z) : list step_t :=
+  match aget k (objs s) with
+  | Some t => match t_tok t with
+              | Pending dl => [SAdvance (dl - clock s); SFireCheck k; SFireSend k]
+              | _ => []
+              end
+  | None => []
+  end.
+
+Fixpoint follow (s : st) (l : list Z) : list step_t :=
+  match l with
+  | [] => []
+  | k :: r => let xs := deliver s k ++ do_steps s k in xs ++ follow (fst (run_from s xs)) r
+  end.
+
+(* then: a loop that is not being stopped goes on until the queue is empty (every expiry that
+   is left is passed to Do, in creation order); a loop that has been told to stop ends *)
+Definition rest_steps (s : st) : list step_t :=
+  match life_of s with
+  | LUp => flat_map (do_steps s) (zsort (queue s))
+  | _ => []
+  end.
+
+Definition loop_steps (s : st) (l : list Z) : list step_t :=
+  let xs := follow s l in
+  let s1 := fst (run_from s xs) in
+  xs ++ rest_steps s1 ++ [SLoopEnd].
+
+Definition compile (s : st) (o : op) (l : list Z) : list step_t :=
   match o with
   | OCreate d rep a p => [SCreate d rep a p]
   | OCreateN n d rep a => repeat (SCreate d rep a []) (Z.to_nat n)
@@ -271,6 +389,11 @@ Definition compile (s : st) (o : op) : list step_t :=
   | OSettle g => settle_steps s g
   | ODo k => do_steps s k
   | ODoAll => flat_map (do_steps s) (zsort (queue s))
+  | OSvc => []
+  | OWait g => wait_steps s g
+  | OStart => SStart :: loop_steps (fst (step s SStart)) l
+  | ORun => loop_steps s l
+  | OStopSvc _ => wait_steps s 0 ++ [SStop; SClose]
   end.
 
 Fixpoint count_cb (k : Z) (tr : list ev) : Z :=
@@ -297,31 +420,56 @@ Fixpoint queued_of (e : list ev) : list Z :=
 
 Definition obs_of (o : op) (tr e : list ev) : obs :=
   match o with
-  | OCreate _ _ _ _ | OCreateN _ _ _ _ | OStall _ | OCancel _ => BUnit
+  | OCreate _ _ _ _ | OCreateN _ _ _ _ | OStall _ | OCancel _ | OSvc => BUnit
   | OStop | OSettle _ => BQueued (queued_of e)
-  | ODo _ | ODoAll => BRan (cbrecs tr e)
+  | ODo _ | ODoAll | OStart | ORun => BRan (cbrecs tr e)
+  | OWait _ | OStopSvc _ => BWait (Z.of_nat (length (queued_of e))) (cbrecs tr e)
   end.
 
-(* all steps executed by an op list (each op compiled in the state it starts in) *)
-Fixpoint steps_of (s : st) (ops : list op) : list step_t :=
+Definition rec_key (r : cbrec) : Z := match r with CbRec k _ _ _ _ _ => k end.
+
+(* the schedule of a released loop, read off the implementation's observation of that op *)
+Definition hint_of (b : obs) : list Z :=
+  match b with BRan l => map rec_key l | _ => [] end.
+Definition hint (bs : list obs) : list Z := match bs with b :: _ => hint_of b | [] => [] end.
+
+(* all steps executed by an op list (each op compiled in the state it starts in); [bs]: the
+   observations the schedules are taken from, one per op (missing ones: no schedule) *)
+Fixpoint steps_of (s : st) (ops : list op) (bs : list obs) : list step_t :=
   match ops with
   | [] => []
-  | o :: r => compile s o ++ steps_of (fst (run_from s (compile s o))) r
+  | o :: r => compile s o (hint bs) ++ steps_of (fst (run_from s (compile s o (hint bs)))) r (tl bs)
   end.
 
 (* all events emitted by an op list *)
-Fixpoint ops_trace (s : st) (ops : list op) : list ev :=
+Fixpoint ops_trace (s : st) (ops : list op) (bs : list obs) : list ev :=
   match ops with
   | [] => []
-  | o :: r => snd (run_from s (compile s o)) ++ ops_trace (fst (run_from s (compile s o))) r
+  | o :: r => snd (run_from s (compile s o (hint bs)))
+              ++ ops_trace (fst (run_from s (compile s o (hint bs)))) r (tl bs)
   end.
 
-Fixpoint exec_from (s : st) (tr : list ev) (ops : list op) : list obs :=
+Fixpoint exec_from (s : st) (tr : list ev) (ops : list op) (bs : list obs) : list obs :=
   match ops with
   | [] => []
   | o :: r =>
-      let '(s1, e) := run_from s (compile s o) in
-      obs_of o tr e :: exec_from s1 (tr ++ e) r
+      let '(s1, e) := run_from s (compile s o (hint bs)) in
+      obs_of o tr e :: exec_from s1 (tr ++ e) r (tl bs)
   end.
 
-Definition run (ops : list op) : list obs := exec_from init [] ops.
+(* a bare manager whose owner goroutine exists from the beginning *)
+Definition init_up : st := fst (step init SStart).
+
+(* a case that starts with OSvc is a service case (the owner is created by OStart) *)
+Definition is_svc (ops : list op) : bool := match ops with OSvc :: _ => true | _ => false end.
+Definition pre_steps (ops : list op) : list step_t := if is_svc ops then [] else [SStart].
+Definition start_state (ops : list op) : st := fst (run_from init (pre_steps ops)).
+Definition start_trace (ops : list op) : list ev := snd (run_from init (pre_steps ops)).
+
+(* the model's observations of an op list, following the schedules of [bs] *)
+Definition run (ops : list op) (bs : list obs) : list obs :=
+  exec_from (start_state ops) (start_trace ops) ops bs.
+
+(* the same with the default schedule (a released loop takes the queued expiries in creation
+   order and, once told to stop, none) - for display *)
+Definition show (ops : list op) : list obs := run ops [].
